@@ -195,7 +195,7 @@ def classify(diags, fmap, genfile, unit, cfg):
         rec['props'] = sorted(props)
         verification_msgs = ('postcondition not satisfied', 'precondition not satisfied', 'invariant not satisfied',
                              'assertion failed', 'possible arithmetic', 'decreases not satisfied', 'possible division by zero',
-                             'loop invariant', 'might not', 'possible bit shift', 'unreachable')
+                             'loop invariant', 'might not', 'possible bit shift', 'unreachable', 'unable to prove', 'cannot prove')
         if d.get('code'):
             # rustc error code (E0277 ...): the extracted text is outside the Verus subset
             rec['kind'] = 'tool'
